@@ -1,8 +1,11 @@
 package checks
 
 import (
+	"encoding/json"
 	"fmt"
 	"os"
+	"os/exec"
+	"sync"
 	"path/filepath"
 	"regexp"
 	"strings"
@@ -14,7 +17,41 @@ import (
 	"verif/goosegen"
 )
 
-func init() { Registry["C07"] = C07 }
+func init() {
+	Registry["C07"] = C07
+	children["c07-translate"] = c07TranslateChildMain
+}
+
+// c07TranslateChildMain: TranslatePackages on one package in a process of its own (a stack overflow or a panic on a
+// worker goroutine cannot be recovered in-process); prints the result as JSON.
+func c07TranslateChildMain(args []string) int {
+	var tr goose.TranslationConfig
+	res, panicked := c07Translate(tr, args[0], args[1])
+	b, _ := json.Marshal(map[string]any{"text": res.text, "errs": res.errs, "nonConversion": res.nonConversion, "panicked": panicked})
+	fmt.Println("C07RES " + string(b))
+	return 0
+}
+
+func c07TranslateChild(root, pkg string) (c07Res, string) {
+	self, _ := os.Executable()
+	cmd := exec.Command(self, "-child", "c07-translate", root, pkg)
+	cmd.Env = goEnv()
+	out, err := cmd.CombinedOutput()
+	for _, ln := range strings.Split(string(out), "\n") {
+		if strings.HasPrefix(ln, "C07RES ") {
+			var r struct {
+				Text          string   `json:"text"`
+				Errs          []c07Err `json:"errs"`
+				NonConversion string   `json:"nonConversion"`
+				Panicked      string   `json:"panicked"`
+			}
+			if json.Unmarshal([]byte(strings.TrimPrefix(ln, "C07RES ")), &r) == nil {
+				return c07Res{text: r.Text, errs: r.Errs, nonConversion: r.NonConversion}, r.Panicked
+			}
+		}
+	}
+	return c07Res{}, fmt.Sprintf("the process died (%v): %s", err, firstLines(string(out), 6))
+}
 
 var c07Categories = map[string]bool{"unsupported": true, "todo": true, "future": true, "impossible(go)": true, "impossible(no-examples)": true}
 
@@ -45,6 +82,11 @@ func C07(c *ev.Ctx) {
 		}
 	}
 	npk := c.Pick(24, 300)
+	if need := len(normal)/6 + 2; npk < need {
+		npk = need
+	}
+	order := rr.Perm(len(normal))
+	pos := 0
 	for p := 0; p < npk; p++ {
 		name := fmt.Sprintf("z%d", p)
 		base := goosegen.Generate(goosegen.Options{Seed: uint64(c.Seed)*104729 + uint64(p), Funcs: 1 + p%3, Entries: 1})
@@ -54,7 +96,8 @@ func C07(c *ev.Ctx) {
 		usesMachine := false
 		var pieces []string
 		for j := 0; j < k; j++ {
-			it := normal[rr.IntN(len(normal))]
+			it := normal[order[pos%len(order)]] // every construct at least once per run, then again in other company
+			pos++
 			n++
 			decls, entry := it.Instantiate(n, fmt.Sprintf("centry%d", n))
 			if strings.Contains(decls+entry, "machine.") {
@@ -111,13 +154,27 @@ func C07(c *ev.Ctx) {
 		}
 	}
 	// (2) library: structured, located errors; every declaration either reported or emitted
-	var tr goose.TranslationConfig
 	reDef := regexp.MustCompile(`(?m)^(?:Definition|Notation) ([A-Za-z0-9_']+)`)
 	nerrs, ndecls := 0, 0
-	for _, info := range infos {
-		var files []interface{ Write(w interface{ Write([]byte) (int, error) }) }
-		_ = files
-		res, terr := c07Translate(tr, m.dir, info.name)
+	type c07Out struct {
+		res  c07Res
+		terr string
+	}
+	outs := make([]c07Out, len(infos))
+	var wg sync.WaitGroup
+	sem := make(chan bool, 12)
+	for i := range infos {
+		wg.Add(1)
+		go func(i int) {
+			defer wg.Done()
+			sem <- true
+			defer func() { <-sem }()
+			outs[i].res, outs[i].terr = c07TranslateChild(m.dir, infos[i].name)
+		}(i)
+	}
+	wg.Wait()
+	for i, info := range infos {
+		res, terr := outs[i].res, outs[i].terr
 		if terr != "" {
 			if !crashed {
 				c.Report("c07.crash", fmt.Sprintf("TranslatePackages panics on package %s: %s", info.name, terr), map[string]string{"gen.go": info.src})
